@@ -190,6 +190,13 @@ def compute_dyadic_downscaling(info, source_scale_index, downscaler,
                   for osz, f in zip(old_chunk_size, downscaling_factors)]
     chunk_fetch_factor = [nsz // hc
                           for nsz, hc in zip(new_chunk_size, half_chunk)]
+    for hc, ncs, nsz in zip(half_chunk, new_chunk_size, new_size):
+        if hc == 1 and min(ncs, nsz) >= 3:
+            # A new chunk is assembled from at most two downscaled old chunks
+            # per axis: a one-voxel-wide downscaled chunk would be silently
+            # broadcast over the rest of the new chunk
+            raise ValueError("Unsupported combination of chunk sizes between "
+                             f"scales {old_key} and {new_key}")
 
     def load_and_downscale_old_chunk(z_idx, y_idx, x_idx):
         xmin = old_chunk_size[0] * x_idx
